@@ -63,6 +63,38 @@ def _waterfall_value(t):
     return False
 
 
+def reset_chain(ctx, why=''):
+    """what `_reset_cache()` does: every attribute a component carries from call to call is put back to its constructed value,
+    and the complex quantiser resets both of its components (C12-D3; C02 states the same -- the bytes of a recording equal the
+    reference pipeline only if a used backend starts each recording like a fresh one)"""
+    Q = 'voltage.quantization.'
+    for cls, proc in ((Q + 'RealQuantizer', 'quantize'), ('voltage.polyphase_filterbank.PolyphaseFilterbank', 'channelize')):
+        pm = ctx.func(cls + '.' + proc)
+        rp, IP = ctx.run(pm, max_depth=0)
+        carried = sorted({e.data['name'] for e in IP.events if e.kind == 'store' and e.data.get('target') == 'attr'
+                          and e.data['base'].key == sym('self').key})
+        ctx.require(carried, f'{cls}.{proc} no longer carries state between calls (C12 RESET rule needs re-anchoring)')
+        ri, II = ctx.run(ctx.func(cls + '.__init__'))
+        rr_, IR_ = ctx.run(ctx.func(cls + '._reset_cache'))
+        for a in carried:
+            want = selfattr(ri, a)
+            got = selfattr(rr_, a)
+            fn = ctx.func(cls + '._reset_cache')
+            if want is None:
+                continue
+            ctx.formula('RESTORE', f'{cls.split(".")[-1]}._reset_cache puts the carried attribute {a} back to its constructed value '
+                        f'whatever the configuration' + why, fn, got if got is not None else T.mk_attr(sym('self'), a), want, node=fn.node,
+                        construct=f'self.{a} after _reset_cache')
+    rc = ctx.func(Q + 'ComplexQuantizer._reset_cache')
+    rq, IQ = ctx.run(rc, no_inline=(Q + 'RealQuantizer._reset_cache',))
+    for part in ('quantizer_r', 'quantizer_i'):
+        es = [e for e in IQ.events if e.kind == 'call' and e.data.get('name', '').endswith('_reset_cache')
+              and e.data.get('recv') is not None and e.data['recv'].key == T.mk_attr(sym('self'), part).key]
+        ctx.ob('MUSTPASS', f'ComplexQuantizer._reset_cache unconditionally resets {part}' + why, rc,
+               bool(es) and es[0].cond().key == T.TRUE.key and not es[0].loops, {'calls': [e.text() for e in es]},
+               node=(es[0].node if es else rc.node), construct=f'self.{part}._reset_cache()')
+
+
 def run(ctx):
     prog = ctx.prog
     S = summaries(prog)
@@ -293,31 +325,18 @@ def run(ctx):
     # what _reset_cache must clear: every attribute the processing method carries from one call to the next
     # (reads and writes) is put back, UNCONDITIONALLY, to the value the constructor gives it
     Q = 'voltage.quantization.'
-    for cls, proc in ((Q + 'RealQuantizer', 'quantize'), ('voltage.polyphase_filterbank.PolyphaseFilterbank', 'channelize')):
-        pm = ctx.func(cls + '.' + proc)
-        rp, IP = ctx.run(pm, max_depth=0)
-        carried = sorted({e.data['name'] for e in IP.events if e.kind == 'store' and e.data.get('target') == 'attr'
-                          and e.data['base'].key == sym('self').key})
-        ctx.require(carried, f'{cls}.{proc} no longer carries state between calls (C12 RESET rule needs re-anchoring)')
-        ri, II = ctx.run(ctx.func(cls + '.__init__'))
-        rr_, IR_ = ctx.run(ctx.func(cls + '._reset_cache'))
-        for a in carried:
-            want = selfattr(ri, a)
-            got = selfattr(rr_, a)
-            fn = ctx.func(cls + '._reset_cache')
-            if want is None:
-                continue
-            ctx.formula('RESTORE', f'{cls.split(".")[-1]}._reset_cache puts the carried attribute {a} back to its constructed value '
-                        f'whatever the configuration', fn, got if got is not None else T.mk_attr(sym('self'), a), want, node=fn.node,
-                        construct=f'self.{a} after _reset_cache')
-    rc = ctx.func(Q + 'ComplexQuantizer._reset_cache')
-    rq, IQ = ctx.run(rc, no_inline=(Q + 'RealQuantizer._reset_cache',))
-    for part in ('quantizer_r', 'quantizer_i'):
-        es = [e for e in IQ.events if e.kind == 'call' and e.data.get('name', '').endswith('_reset_cache')
-              and e.data.get('recv') is not None and e.data['recv'].key == T.mk_attr(sym('self'), part).key]
-        ctx.ob('MUSTPASS', f'ComplexQuantizer._reset_cache unconditionally resets {part}', rc,
-               bool(es) and es[0].cond().key == T.TRUE.key and not es[0].loops, {'calls': [e.text() for e in es]},
-               node=(es[0].node if es else rc.node), construct=f'self.{part}._reset_cache()')
+    reset_chain(ctx)
+    # the one attribute a block collection writes on the backend is the sub-block count it actually used: written back it must
+    # reproduce itself (ceil(n / ceil(n / s)) is a fixed point; a floor is not), or the FIRST block a backend ever collects is
+    # partitioned -- and quantised per chunk -- differently from every later one, i.e. from a fresh backend's
+    from .refs_backend import REF_COLLECT
+    from .c02 import NI as _NI
+    from vstatic.terms import NONE as _NONE, TRUE as _TRUE
+    cdb_ = ctx.func(B + '.collect_data_block')
+    agree_ref(ctx, cdb_, REF_COLLECT, 'collect_data_block: the sub-block count written back is ceil(n / ceil(n / s)), a fixed point of '
+              'the write-back (a used backend partitions a block like a fresh one)', what=('attrstores',),
+              heap={'num_bits': lift(8), 'input_file_stem': _NONE}, args={'digitize': _TRUE, 'requantize': _TRUE}, no_inline=_NI,
+              expand=False, max_depth=0)
     # run-to-run determinism also needs every iteration order to follow from the inputs (PYTHONHASHSEED-dependent
     # set order, directory listing order)
     unordered_sweep(ctx)
